@@ -216,6 +216,20 @@ func GobDecode(data []byte) Op {
 	}}
 }
 
+// OnItemCollectionRead views x as an item list and reads it.
+func OnItemCollectionRead(x ap.Item) Op {
+	return Op{"OnItemCollection(read)", func() string {
+		seen := ""
+		err := ap.OnItemCollection(x, func(col *ap.ItemCollection) error {
+			if col != nil {
+				seen = fmt.Sprint(len(*col), col.IRIs(), col.Contains(ap.IRI("https://example.com/3")))
+			}
+			return nil
+		})
+		return fmt.Sprint(seen, " err=", err)
+	}}
+}
+
 // Scenario is a set of threads over shared values.
 type Scenario struct {
 	Name    string
@@ -226,7 +240,7 @@ type Scenario struct {
 var fresh int // S10: a different spelling of the identities for every instance
 
 // Count is the number of scenarios.
-const Count = 11
+const Count = 12
 
 type sizes struct {
 	note       func() *ap.Object
@@ -320,6 +334,14 @@ func get(i int, z *sizes) Scenario {
 		ids := ap.IRIs{ap.IRI(fmt.Sprintf("https://example.com/q%08d?a=1&a=0", fresh%100000000)), "https://example.com/notes/1", "https://example.com/q?x=1"}
 		return mk("S10 ItemsEqual(note, respelled note) || IRIs.Contains(respelled id) || ItemsEqual(respelled, note)", []ap.Item{v, w, ids},
 			ItemsEqual(v, w), ContainsIRI(ids, ap.IRI(fmt.Sprintf("http://EXAMPLE.com/q%08d?a=0&a=1", fresh%100000000))), ItemsEqual(w, v))
+	case 11:
+		// arguments that are not vocabulary structs: one IRI list and one item list, shared BY POINTER, viewed as item lists and
+		// compared from three threads (a helper that rebuilds such a list and stores it back through the pointer is a writer)
+		ids := ap.IRIs{"https://example.com/1", "https://example.com/2", "https://example.com/3"}
+		twin := ap.IRIs{"https://example.com/1", "https://example.com/2", "https://example.com/3"}
+		items := ap.ItemCollection{ap.IRI("https://example.com/1"), Note(), ap.IRI("https://example.com/3")}
+		return mk("S11 OnItemCollection(*IRIs, read) || ItemsEqual(*IRIs, twin) || OnItemCollection(*ItemCollection, read)", []ap.Item{&ids, &twin, &items},
+			OnItemCollectionRead(&ids), ItemsEqual(&ids, &twin), OnItemCollectionRead(&items))
 	case 9:
 		// texts long enough for any size-triggered path (pooled or chunked buffers), different in the two threads
 		v, w := LongTexts(1, z.longN), LongTexts(2, z.longN)
